@@ -165,7 +165,7 @@ func Run(sc *Scenario, obs Observer, final func(r *Runner)) (*Result, error) {
 
 	res := &Result{}
 	idleRounds := 0
-	batchReleases, stalls := 0, 0
+	batchReleases, stalls, skips := 0, 0, 0
 	for r.Steps < sc.MaxSteps {
 		st, strict, ok := gate.WaitQuiescent(150*time.Microsecond, 3, 60*time.Millisecond, 30*time.Second)
 		if !ok {
@@ -221,6 +221,15 @@ func Run(sc *Scenario, obs Observer, final func(r *Runner)) (*Result, error) {
 			pick = sc.Choose(st.Waiters, sc.G)
 		} else {
 			pick = choose(sc.Policy, st.Waiters, sc.G)
+		}
+		if pick.ID < 0 {
+			// the chooser wants to wait for an actor that has been asked to act but has not reached a gate yet
+			skips++
+			if skips > 20000 {
+				res.TimedOut = true
+				break
+			}
+			continue
 		}
 		if pick.Point == "batch.beforeIntro" {
 			batchReleases++
